@@ -109,6 +109,9 @@ def classify(scn: dict, detail: dict) -> str | None:
     stays a violation)."""
     if detail.get("what", "").startswith("linear") and not all_involutive(lk.norm_b(scn["b"])):
         return "non-involutive-map"
+    cpds = list(scn["b"]["cpds"])
+    if detail.get("what", "").startswith("linear") and any(c.endswith("_") and c.rstrip("_") in cpds for c in cpds):
+        return "name-with-trailing-underscore"       # (fixed in /repo: a regression is labelled, and still a VIOLATION)
     return None
 
 
@@ -565,9 +568,9 @@ def run(ctx: Ctx) -> int:
             dict(name="nl2", what="exhaustive: A<->B, A+B->C, A->B+C networks, label counts 1..2, all maps max(S,P)<=3",
                  tpls=["cycle", "bi", "split"], maxnl=2, maxl=3),
             dict(name="free", what="exhaustive: chain, label counts 1..2, every map of every reaction (also influx/efflux)",
-                 tpls=["chain"], maxnl=2, maxl=2, focus=False),
+                 tpls=["chain", "under"], maxnl=2, maxl=2, focus=False),
             dict(name="invol", what="exhaustive: all networks, counts 1..2, involutive maps only, max(S,P)<=3",
-                 tpls=ALL_TPLS, maxnl=2, maxl=3, invol=True),
+                 tpls=ALL_TPLS + ["under"], maxnl=2, maxl=3, invol=True),
             dict(name="deep", what="seeded simulation: all networks, counts 1..3, all maps max(S,P)<=6, independent distributions",
                  tpls=ALL_TPLS, maxnl=3, maxl=6, distall=True, focus=False, simulate="num=50", depth=80),
             # a compound with coefficient 2 AND >= 2 positions (unit-major vs position-major expansion of a reaction
@@ -593,7 +596,7 @@ def run(ctx: Ctx) -> int:
             dict(name="nl2", what="exhaustive: all networks, label counts 1..2, all maps max(S,P)<=4 (2A->B and A+B->C: all 256)",
                  tpls=ALL_TPLS, maxnl=2, maxl=4),
             dict(name="free", what="exhaustive: chain, cycle, 2A->B network, label counts 1..2, every map of every reaction (also influx/efflux)",
-                 tpls=["chain", "cycle", "homo"], maxnl=2, maxl=4, focus=False),
+                 tpls=["chain", "cycle", "homo", "under"], maxnl=2, maxl=4, focus=False),
             dict(name="invol", what="exhaustive: all networks, counts 1..3, involutive maps only, max(S,P)<=6",
                  tpls=ALL_TPLS, maxnl=3, maxl=6, invol=True),
             dict(name="deep", what="seeded simulation: all networks, counts 1..3, all maps max(S,P)<=6, independent distributions",
@@ -641,7 +644,7 @@ def run(ctx: Ctx) -> int:
         raise MachineryError(f"only {n_ord} involutive merge/split cases whose compounds are written against the declaration order")
     rep.notes["cases"] = {"total": len(scns), "all_maps_involutive": n_inv, "doubled_multi_position_involutive": n_dbl,
                           "merge_split_against_declaration_order_involutive": n_ord, "three_units_on_a_side_involutive": n_three, "base_edit_sessions_involutive": n_sess,
-                          "by_template": {t: sum(1 for s in scns if s["tpl"] == t) for t in ALL_TPLS + ["dimer"] + THREE_TPLS}}
+                          "by_template": {t: sum(1 for s in scns if s["tpl"] == t) for t in ALL_TPLS + ["dimer", "under"] + THREE_TPLS}}
     # ---- binding self-test: one corrupted expected value must be noticed by the comparison ---------------------
     probe = next(s for s in scns if s["involutive"] and s["tpl"] == "bi")
     probe_obs = observe(probe)
